@@ -6,7 +6,8 @@ from .brokergen import CONTRACT, SIGN
 HARNESS = "c05"
 CONST_GROUPS = ["message"]
 TIMEOUT = 14400   # total run; generous: a loaded machine must not turn into a false "hang"
-STALL = 600      # the trace grows once per child process (16 sessions)
+STALL = 600
+BATCH_SESSIONS = 48   # sessions per harness process; VERIF_JOBS of them run in parallel (the harness itself starts a child per 16 sessions)      # the trace grows once per child process (16 sessions)
 RULE = ("one case = one session: reset <2-4 brokers>, then a random interleaving of client activity (new connections with "
         "chosen local ids, sub / unsub / close on 3-4 channels incl. '+' filters, bursts sub;unsub;sub within one clock "
         "reading by one or several connections of one broker, occasionally a clock that does not advance) with transport "
